@@ -5,6 +5,7 @@ import ZkElGamal.Driver.Range
 import ZkElGamal.Driver.Ae
 import ZkElGamal.Driver.Kdf
 import ZkElGamal.Driver.Secrets
+import ZkElGamal.Driver.Dlog
 /-!
 `zkmodel` — the executable model. One op per line on stdin (`<id> <op> <args…>`),
 one result per line on stdout (`<id> <outcome>`); the same lines are run by the
@@ -46,16 +47,25 @@ def execOp (g : Unit → List CPt × List CPt) (op : String) (args : List String
   | "elg" => opElg args
   | "ae" => opAe args
   | "kdf" => opKdf args
+  | "dlog" => opDlog args
   | "drop" => opDrop args
   | "debug" => opDebug args
   | "fresh" => "distinct"     -- the specification: nothing ever repeats (theorems of C19)
   | _ => "bad-op"
 
-partial def loop (h : IO.FS.Stream) (out : IO.FS.Stream) (cache : IO.Ref (Option (List CPt × List CPt))) : IO Unit := do
+partial def loop (h : IO.FS.Stream) (out : IO.FS.Stream) (cache : IO.Ref (Option (List CPt × List CPt)))
+    (tcache : IO.Ref (Option (Std.HashMap Nat Nat))) : IO Unit := do
   let line ← h.getLine
   if line.isEmpty then return ()
   let toks := (line.trimAscii.toString.splitOn " ").filter (· ≠ "")
   match toks with
+  | id :: "dlogsearch" :: args =>
+    if (← tcache.get).isNone then tcache.set (some buildTable)
+    out.putStrLn s!"{id} {opDlogSearch ((← tcache.get).getD {}) args}"
+  | [id, "dlogtable", path] =>
+    if (← tcache.get).isNone then tcache.set (some buildTable)
+    let bytes ← IO.FS.readBinFile path
+    out.putStrLn s!"{id} {checkTableFile ((← tcache.get).getD {}) bytes}"
   | id :: op :: args =>
     let needsGens := op == "rnew" || op == "rprove" || op == "rmprove" || op == "gens" ||
       (op == "verify" && (args.headD "").startsWith "range")
@@ -64,11 +74,12 @@ partial def loop (h : IO.FS.Stream) (out : IO.FS.Stream) (cache : IO.Ref (Option
     let g := (← cache.get).getD ([], [])
     out.putStrLn s!"{id} {execOp (fun _ => g) op args}"
   | _ => pure ()
-  loop h out cache
+  loop h out cache tcache
 
 def main : IO Unit := do
   let stdin ← IO.getStdin
   let stdout ← IO.getStdout
   let cache ← IO.mkRef none
-  loop stdin stdout cache
+  let tcache ← IO.mkRef none
+  loop stdin stdout cache tcache
   stdout.flush
